@@ -107,6 +107,47 @@ Added for the constant-time long division Uint::div_rem and what it calls (bits,
   (`assert!` / `expect` are dropped like `debug_assert!`: `x.expect(msg)` of a ConstCtOption is translated from its source
    `assert!(self.is_some.is_true_vartime(), ..); self.value` and returns the carried value; the models return None where the
    assertion fails and the theorems are stated for the Some case)
+Added for the square root, the signed division fronts, the special-modulus multiplication and the almost-Montgomery
+multiplication (constructs of the language / type names of the crate only, never the body of a particular function):
+  Uint<{ LIMBS }>                        a braced const argument is the const generic itself; the body of a function starts at the
+                                         first `{` outside angle brackets
+  impl<const LIMBS: usize> NonZero<Uint<LIMBS>> / NonZero<Int<LIMBS>> / impl NonZero<Limb>
+                                         specialised impl blocks of the erased wrappers as targets ({"impl": "NonZero<Int<LIMBS>>", ..});
+                                         `Self(x)` there is x; blocks whose header mentions LIMBS take (LIMBS : nat) first
+  NonZero::<Uint<LIMBS>>::f(..), NonZero::<Limb>::f(..)
+                                         turbofish carrying ONE type: the function f of the impl block spelled `NonZero<Uint<LIMBS>>`
+  x.m(..) with x : NonZero<T> / Odd<T>   the method m of the impl block spelled like the type of x (`NonZero<Int<LIMBS>>::abs_sign`) if it is
+                                         a target; else, if NO impl block of the wrapper anywhere under src/ defines a function named m,
+                                         the method of T (`impl<T> Deref for NonZero<T>`, auto-deref); else an error
+  if c { e } else { panic!(..) }         as an EXPRESSION (either branch may be the diverging one): if c then e else (panic_ D), D the default
+                                         value of the type of e; the theorems state the condition under which the guard is not taken
+  { s1; ..; e }                          block expression (right-hand side of a `let` / assignment): its `let`s are local; a block that
+                                         assigns a variable declared outside it is an error
+  [e1, e2, ..]                           array literal: the list (e1 :: e2 :: .. :: nil) of type [Word; k] / [Limb; k] = Uint<k> with the LITERAL
+                                         length k
+  f([lo, hi]), g(&Uint<k>)               a call of a function generic over the limb count (impl<const LIMBS: usize> / fn f<const L: usize>)
+                                         with an argument of literal length k where the parameter has length LIMBS / L: the callee's
+                                         const generic is k (passed as `k%nat`), its return type is read at that instance
+                                         (`Uint::from_words([lo, hi])` : Uint<2>); works in a context without a const generic
+  Word::MIN                              0
+  {"extern": true} targets               a function OUTSIDE the subset that translated functions call (`Uint::split_mul`: Karatsuba dispatch,
+                                         macro-generated): only its declared signature is read from the source (its own const generics
+                                         `<const RHS_LIMBS: usize>` are read at the instance where they equal LIMBS); it becomes a Section
+                                         Variable of the generated file, so every definition of the group that (transitively) calls it takes
+                                         it as its FIRST argument and the theorems about those definitions quantify over it, stating what
+                                         they assume of it. A function that depends on an extern may only be called inside its group.
+                                         The report marks it `ok (extern: signature only)`
+  f(z, ..) with z a `&mut [Limb]` PARAMETER of the current function
+                                         passed on to a function with `&mut` parameters (implicit reborrow): like `&mut x`, z is rebound to
+                                         its final contents
+  c = f(.., &mut x / z, ..);             assignment whose right-hand side is such a call: let '(v_c, v_x) := (g_f ..) in
+  let mut c = if q { ..; f(z, ..) } else { ..; e };
+                                         a `let` whose value is an `if` with such a call in a branch is read as
+                                         `let mut c; if q { ..; c = f(z, ..); } else { ..; c = e; }` (the same Rust program): the `if`
+                                         statement rebinds (z, c)
+  `while i < E && j < F { ..; i += 1; j += 1; }`
+                                         (both increments last, in either order; i, j not assigned elsewhere in the body, E, F not changed
+                                         by it) Nat.iter (Z.to_nat (Z.min (E - v_i) (F - v_j))) over (i, j, the assigned variables)
 Anything else is a translation error: the function is emitted as an ill-typed stub so that its equality proof fails
 (reported as a broken proof obligation of the properties that rest on it), never silently skipped.
 """
@@ -172,7 +213,12 @@ def find_fn(src, name, impl=None, trait=None):
             c = scope[i]
             depth += (c == '(') - (c == ')'); i += 1
         params = scope[m.end():i - 1]
-        j = scope.index('{', i)
+        # the body starts at the first `{` outside angle brackets (a return type may contain `Uint<{ LIMBS }>`)
+        j = i; adepth = 0
+        while not (scope[j] == '{' and adepth == 0):
+            if scope[j] == '<': adepth += 1
+            if scope[j] == '>' and scope[j - 1] != '-': adepth -= 1
+            j += 1
         ret = scope[i:j].strip()
         ret = ret[2:].strip() if ret.startswith('->') else ''
         k = j + 1; depth = 1
@@ -192,6 +238,8 @@ LISTS = ('arr', 'slice', 'int', 'warr')      # all `list Z` in Coq; they differ 
 WRAPPERS = ('NonZero', 'Odd')                # struct NonZero<T>(T), struct Odd<T>(T): erased newtypes, `.0` gives the T
 CG = [None]          # name of the const generic of the free function being translated (`fn f<const L: usize>`); None: LIMBS
 
+EXTRA_CG = []        # method-level const generics of the extern signature being read (`fn split_mul<const RHS_LIMBS: usize>`)
+
 def cgname():
     return CG[0] or 'LIMBS'
 
@@ -203,6 +251,10 @@ def parse_type(s, selfty):
         parts = [p for p in split_top(inner) if p.strip()]
         return ('tuple', [parse_type(p, selfty) for p in parts])
     g = re.escape(cgname())
+    for x in EXTRA_CG:
+        # a method-level const generic of an EXTERN signature, read at the instance where it equals the const generic of the impl
+        s = re.sub(r'\b%s\b' % re.escape(x), cgname(), s)
+    s = re.sub(r'<\s*\{\s*(%s)\s*\}\s*>' % g, r'<\1>', s)          # Uint<{ LIMBS }>: a braced const argument
     if re.fullmatch(r'\[\s*Limb\s*;\s*%s\s*\]' % g, s) or re.fullmatch(r'Uint\s*<\s*%s\s*>' % g, s):
         return 'arr'
     if re.fullmatch(r'\[\s*Limb\s*\]', s):
@@ -254,6 +306,8 @@ def coq_type(t):
         return 'g_' + t[1]
     if t in LISTS:
         return 'list Z'
+    if isinstance(t, tuple) and t[0] == 'arrk':
+        return 'list Z'            # Uint<k> / [Limb; k] with a literal k
     if isinstance(t, tuple) and t[0] == 'ctopt':
         return '(%s * Z)' % coq_type(t[1])
     if isinstance(t, tuple) and t[0] == 'wrap':
@@ -279,6 +333,25 @@ def is_generic(owner):
     """impl blocks generic over LIMBS (`impl<const LIMBS: usize> Uint<LIMBS>`, `.. ConstCtOption<Uint<LIMBS>>`): their items
     take (LIMBS : nat) first"""
     return bool(owner) and 'LIMBS' in owner
+
+def subst_len(t, k):
+    """the type t of a function generic over the limb count, at the instance k (a literal): Uint<LIMBS> -> Uint<k>"""
+    if t == 'arr': return ('arrk', k)
+    if t == 'warr': return ('fixarr', 'u64', k)
+    if isinstance(t, tuple) and t[0] == 'tuple': return ('tuple', [subst_len(u, k) for u in t[1]])
+    if isinstance(t, tuple) and t[0] == 'wrap': return ('wrap', t[1], subst_len(t[2], k))
+    if isinstance(t, tuple) and t[0] == 'ctopt': return ('ctopt', subst_len(t[1], k))
+    if t in ('slice', 'int'): raise TErr('limb-count instance of the type %s' % t)
+    return t
+
+def lit_len(pt, t):
+    """the literal limb count k when an argument of type t = Uint<k> / [Limb; k] / [Word; k] meets a parameter of type
+    pt = Uint<LIMBS> / [Limb; LIMBS] / [Word; LIMBS] (through NonZero / Odd), else None"""
+    if pt == 'arr' and isinstance(t, tuple) and t[0] == 'arrk': return t[1]
+    if pt == 'warr' and isinstance(t, tuple) and t[0] == 'fixarr' and t[1] == 'u64': return t[2]
+    if isinstance(pt, tuple) and pt[0] == 'wrap' and isinstance(t, tuple) and t[0] == 'wrap' and pt[1] == t[1]:
+        return lit_len(pt[2], t[2])
+    return None
 
 def subst_T(t, x):
     if t == 'T': return x
@@ -378,8 +451,21 @@ class P:
         if x[0] == 'str':
             return ('strlit',)
         if x == ('op', '['):
-            e1 = self.expr(); self.expect(';'); e2 = self.expr(); self.expect(']')
+            e1 = self.expr()
+            if self.isop(','):
+                # array literal `[e1, e2, ..]`
+                es = [e1]
+                while self.isop(','):
+                    self.next()
+                    if self.isop(']'): break
+                    es.append(self.expr())
+                self.expect(']'); return ('arrlit', es)
+            self.expect(';'); e2 = self.expr(); self.expect(']')
             return ('repeat', e1, e2)
+        if x == ('op', '{'):
+            # block expression `{ s1; ..; e }`
+            ss = self.block(); self.expect('}')
+            return ('block', ss)
         if x == ('op', '('):
             es = []
             if self.isop(')'):
@@ -398,10 +484,24 @@ class P:
             while self.isop('::'):
                 self.next()
                 if self.isop('<'):
-                    # turbofish `Uint::<LIMBS>::new`: the only generic argument of the subset is LIMBS itself
+                    # turbofish `Uint::<LIMBS>::new`: the const generic itself (dropped), or ONE type `NonZero::<Uint<LIMBS>>::f`:
+                    # the path element becomes the spelled type `NonZero<Uint<LIMBS>>` (the header of the impl block that holds f)
                     self.next()
-                    if not self.isid(self.cg): raise TErr('generic argument other than %s' % self.cg)
-                    self.next(); self.expect('>'); continue
+                    if self.isid(self.cg) and self.isop('>', 1):
+                        self.next(); self.next(); continue
+                    depth = 1; txt = ''
+                    while depth:
+                        y = self.next()
+                        if y[0] == 'eof' or y[0] not in ('id', 'op') or (y[0] == 'op' and y[1] not in ('<', '>', '>>')):
+                            raise TErr('generic argument other than %s / a type' % self.cg)
+                        if y == ('op', '<'): depth += 1
+                        if y == ('op', '>'): depth -= 1
+                        if y == ('op', '>>'):
+                            depth -= 2
+                            if depth < 0: raise TErr('unbalanced generic arguments')
+                            txt += '>' if depth == 0 else '>>'; continue
+                        if depth: txt += str(y[1])
+                    path[-1] = '%s<%s>' % (path[-1], txt); continue
                 y = self.next()
                 if y[0] != 'id': raise TErr('bad path')
                 path.append(y[1])
@@ -561,7 +661,7 @@ CONSTS = {('Word', 'BITS'): ('64', 'u32'), ('WideWord', 'BITS'): ('128', 'u32'),
           ('Self', 'FALSE'): ('0', 'choice'), ('Self', 'TRUE'): ('(2 ^ 64 - 1)', 'choice'),
           ('ConstChoice', 'FALSE'): ('0', 'choice'), ('ConstChoice', 'TRUE'): ('(2 ^ 64 - 1)', 'choice'),
           ('Limb', 'ZERO'): ('0', 'limb'), ('Limb', 'ONE'): ('1', 'limb'), ('Limb', 'MAX'): ('(2 ^ 64 - 1)', 'limb'),
-          ('Word', 'ZERO'): ('0', 'u64')}
+          ('Word', 'ZERO'): ('0', 'u64'), ('Word', 'MIN'): ('0', 'u64')}
 ARR_CONSTS = {'ZERO': '(repeat 0 LIMBS)', 'MAX': '(repeat (2 ^ 64 - 1) LIMBS)'}
 
 def fv(e, acc):
@@ -579,6 +679,8 @@ MUTS = {}            # key -> names of the `&mut` parameters (their final values
 MUTPOS = {}          # key -> positions of the `&mut` parameters in the parameter list
 MUTRET = {}          # key -> declared return type of a function that has `&mut` parameters AND returns a value
 FREE_GENERIC = set() # keys of the free functions `fn f<const L: usize>(..)`: they take (L : nat) first
+EXT_USERS = {}       # key -> group file, for the extern functions and every function that (transitively) calls one
+CUR_GROUP = [None]   # the group file being generated
 
 def mutrefs(e, acc):
     """variables borrowed `&mut x` / `&mut x.limbs` inside an expression (they are rebound by the call that takes them)"""
@@ -589,6 +691,25 @@ def mutrefs(e, acc):
     elif isinstance(e, (tuple, list)):
         for x in e: mutrefs(x, acc)
     return acc
+
+REPO = ['/repo']
+_WM = {}
+def wrapper_methods(w):
+    """names of all functions defined in ANY impl block (inherent or trait) of the wrapper type w (NonZero / Odd) in the crate:
+    a method call on a wrapper value may be resolved through Deref only when the name is not among them"""
+    if w not in _WM:
+        names = set()
+        for root, _, files in os.walk(os.path.join(REPO[0], 'src')):
+            for f in files:
+                if not f.endswith('.rs'): continue
+                src = open(os.path.join(root, f)).read()
+                for m in re.finditer(r'^\s*impl\b[^{;]*?\b%s\s*<[^{;]*\{' % re.escape(w), src, re.M):
+                    k = m.end(); depth = 1
+                    while depth and k < len(src):
+                        depth += (src[k] == '{') - (src[k] == '}'); k += 1
+                    names.update(re.findall(r'\bfn\s+(\w+)', src[m.end():k]))
+        _WM[w] = names
+    return _WM[w]
 
 class Emitter:
     def owner(self, o):
@@ -606,6 +727,8 @@ class Emitter:
         self.uninit = {}              # `let mut x;` : name -> placeholder id, until the first assignment fixes the type
         self.uninit_t = {}            # placeholder id -> type
         self.uid = 0
+        self.uses_extern = False      # the body calls an extern function (or a function that does)
+        self.mutparams = ()           # the `&mut [Limb]` parameters of the function being translated (they may be passed on)
     def isint(self, t):
         return t in BITS or t in SBITS
     def unify(self, a, b, what):
@@ -740,6 +863,23 @@ class Emitter:
             c, t = self.emit(e[1], env, 'limb')
             if t not in ('limb', 'u64'): raise TErr('array of %s' % t)
             return '(repeat %s %s)' % (c, cgname()), 'arr'
+        if k == 'arrlit':
+            # `[e1, e2, ..]`: a list of words (or limbs) whose length is the literal count of elements
+            want = exp[1] if isinstance(exp, tuple) and exp[0] == 'fixarr' else ('limb' if isinstance(exp, tuple) and exp[0] == 'arrk' else None)
+            parts = [self.emit(x, env, want) for x in e[1]]
+            ts = set(t for _, t in parts)
+            if len(ts) != 1 or None in ts: raise TErr('array literal with elements of types %s' % (sorted(map(str, ts)),))
+            t = ts.pop()
+            if t not in ('u8', 'u16', 'u32', 'u64', 'limb'): raise TErr('array literal of %s' % (t,))
+            txt = '(' + ' :: '.join(c for c, _ in parts) + ' :: nil)'
+            return txt, (('arrk', len(parts)) if t == 'limb' else ('fixarr', t, len(parts)))
+        if k == 'block':
+            # block expression: its `let`s are local; it may not assign a variable declared outside it
+            out = [v for v in self.assigned(e[1], []) if v in env]
+            if out: raise TErr('block expression that assigns the outer variable %s' % out[0])
+            c = self.stmts(e[1], dict(env), exp, None)
+            if c is None or self.ret_t is None: raise TErr('block expression without a value')
+            return '(%s)' % c, self.ret_t
         if k == 'index':
             c, t = self.emit(e[1], env, None)
             fix = isinstance(t, tuple) and t[0] == 'fixarr'
@@ -797,6 +937,10 @@ class Emitter:
                     c, t = self.emit(e[2][0], env, 'arr')       # Int(Uint)
                     self.unify(t, 'arr', 'newtype constructor')
                     return c, ty
+                if isinstance(ty, tuple) and ty[0] == 'wrap' and path[0] == 'Self':
+                    c, t = self.emit(e[2][0], env, ty[2])       # Self(x) in `impl NonZero<..>` / `impl Odd<..>`: erased
+                    self.unify(t, ty[2], 'newtype constructor')
+                    return c, ty
                 if ty not in ('choice', 'limb'): raise TErr('tuple-struct constructor of %s' % (ty,))
                 c, t = self.emit(e[2][0], env, 'u64')
                 self.unify(t, 'u64', 'newtype constructor')
@@ -843,6 +987,16 @@ class Emitter:
                 return self.call('Int<LIMBS>::' + name, [('raw', c, t)] + e[3], env)
             if t == 'slice' and name == 'len' and not e[3]:
                 return '(Z.of_nat (length %s))' % c, 'u64'      # a usize
+            if isinstance(t, tuple) and t[0] == 'wrap':
+                # NonZero<T> / Odd<T>: a method of the impl block spelled like the value's type (`impl<const LIMBS: usize>
+                # NonZero<Int<LIMBS>>`); else, if NO impl block of the wrapper anywhere in the crate defines a function of that
+                # name, the method of T through `impl<T> Deref for NonZero<T>` (auto-deref)
+                key = type_owner(t) + '::' + name
+                if key in self.sigs:
+                    return self.call(key, [('raw', c, t)] + e[3], env)
+                if name in wrapper_methods(t[1]):
+                    raise TErr('method %s of %s is not translated' % (name, type_owner(t)))
+                return self.emit(('mcall', ('raw', c, t[2]), name, e[3]), env, exp)
             if isinstance(t, tuple) and t[0] == 'ctopt':
                 # the specialised impl block `impl ConstCtOption<NonZero<Limb>>` / `impl<const LIMBS: usize> ConstCtOption<Uint<LIMBS>>`,
                 # else the generic `impl<T> ConstCtOption<T>`
@@ -858,6 +1012,14 @@ class Emitter:
             cc, ct = self.emit(e[1], env, 'bool')
             if ct != 'bool': raise TErr('if condition of type %s' % (ct,))
             if not e[3]: raise TErr('if expression without else')
+            if e[3] == [('panic',)] or e[2] == [('panic',)]:
+                # `if c { e } else { panic!(..) }` (or the branches swapped): the diverging branch is panic_ D, D the default value of
+                # the type of the other branch
+                other = e[2] if e[3] == [('panic',)] else e[3]
+                a = self.stmts(other, dict(env), exp, None); ta = self.ret_t
+                if a is None or ta is None: raise TErr('if expression whose branch has no value')
+                pd = '(panic_ %s)' % dummy(ta)
+                return ('(if %s then %s else %s)' % ((cc, a, pd) if e[3] == [('panic',)] else (cc, pd, a))), ta
             a = self.stmts(e[2], dict(env), exp, None); ta = self.ret_t
             b = self.stmts(e[3], dict(env), exp if exp is not None else ta, None); tb = self.ret_t
             if a is None or b is None: raise TErr('if expression whose branch has no value')
@@ -870,11 +1032,25 @@ class Emitter:
         if len(path) == 1:
             return path[0]
         owner = self.owner(path[-2])
+        if '<' in path[-2] and owner + '::' + path[-1] in self.sigs:
+            return owner + '::' + path[-1]           # `NonZero::<Uint<LIMBS>>::f`: the specialised impl block spelled like that
         return owner + '::' + path[-1] if owner in OWNERS else path[-1]
     def is_mut_call(self, e):
         if e is None or e[0] != 'call': return False
         if len(e[1]) == 1 and e[1][0] in ('Self', 'ConstChoice', 'Limb'): return False
         return bool(MUTS.get(self.callkey(e[1])))
+    def borrowed(self, e, acc):
+        """variables whose contents the calls of functions with `&mut` parameters inside e change: `&mut x` / `&mut x.limbs` /
+        a `&mut [Limb]` parameter passed on (in order of occurrence)"""
+        if isinstance(e, tuple) and len(e) == 3 and e[0] == 'call' and isinstance(e[1], list) and self.is_mut_call(e):
+            key = self.callkey(e[1])
+            for k in MUTPOS[key]:
+                if k < len(e[2]) and e[2][k][0] == 'var' and e[2][k][1] in self.mutparams and e[2][k][1] not in acc:
+                    acc.append(e[2][k][1])
+        if isinstance(e, (tuple, list)):
+            for x in e:
+                if isinstance(x, (tuple, list)): self.borrowed(x, acc)
+        return acc
     def mut_call(self, e, env):
         """`f(.., &mut x, .., &mut y.limbs, ..)` where f has `&mut` parameters -> (coq text of the call, declared return type
         or None, the variables x, y.. in parameter order: the caller rebinds them to the final contents); None if e is not
@@ -884,7 +1060,9 @@ class Emitter:
         for k in MUTPOS[key]:
             if k >= len(args): raise TErr('arity of %s' % key)
             a = args[k]
-            if a[0] != 'mutref': raise TErr('argument %d of %s must be `&mut x` / `&mut x.limbs`' % (k, key))
+            if a[0] == 'var' and a[1] in self.mutparams and env.get(a[1]) == 'slice':
+                a = ('mutref', a)        # `f(z, ..)` where z is itself a `&mut [Limb]` parameter: an implicit reborrow `&mut *z`
+            if a[0] != 'mutref': raise TErr('argument %d of %s must be `&mut x` / `&mut x.limbs` / a `&mut [Limb]` parameter' % (k, key))
             b = a[1]
             if b[0] == 'field' and b[2] == 'limbs' and b[1][0] == 'var' and env.get(b[1][1]) == 'arr': b = b[1]
             if not (b[0] == 'var' and env.get(b[1]) in ('arr', 'slice')):
@@ -901,10 +1079,15 @@ class Emitter:
         cname, ptys, rty = self.sigs[key]
         if len(ptys) != len(args):
             raise TErr('arity of %s' % key)
+        if key in EXT_USERS:
+            if EXT_USERS[key] != CUR_GROUP[0]:
+                raise TErr('call of %s, which depends on an extern function of another group' % key)
+            self.uses_extern = True
+        generic = (is_generic(key.rsplit('::', 1)[0]) and '::' in key) or key in FREE_GENERIC
         parts = [cgname()] if is_generic(key.rsplit('::', 1)[0]) and '::' in key else []
         if key in FREE_GENERIC:
-            if not self.cg: raise TErr('call of the generic function %s: the const generic cannot be inferred' % key)
             parts = [self.cg]
+        klit = None                    # the limb count of the callee inferred from an argument Uint<k> / [Word; k] with a literal k
         tv = None                      # instance of the type parameter T of `impl<T> ConstCtOption<T>`
         for a, pt in zip(args, ptys):
             if pt == 'T':
@@ -912,11 +1095,19 @@ class Emitter:
                 if t is None: raise TErr('cannot infer the type parameter of ' + key)
                 tv = self.unify(tv, t, 'type parameter of ' + key); parts.append(c); continue
             if tv is not None: pt = subst_T(pt, tv)
-            c, t = self.emit(a, env, pt)
-            if pt == 'slice' and t == 'arr': t = 'slice'       # &[Limb; N] coerces to &[Limb]
+            c, t = self.emit(a, env, subst_len(pt, klit) if klit is not None and pt != 'slice' else pt)
+            if pt == 'slice' and (t == 'arr' or (isinstance(t, tuple) and t[0] == 'arrk')): t = 'slice'       # &[Limb; N] coerces to &[Limb]
             if isinstance(pt, tuple) and pt[0] == 'ctopt' and pt[1] == 'T' and isinstance(t, tuple) and t[0] == 'ctopt':
                 tv = self.unify(tv, t[1], 'type parameter of ' + key); pt = t
+            if generic and lit_len(pt, t) is not None:
+                if klit is not None and klit != lit_len(pt, t): raise TErr('conflicting limb counts for ' + key)
+                klit = lit_len(pt, t); pt = t
             self.unify(t, pt, 'argument of ' + key); parts.append(c)
+        if klit is not None:
+            # `Uint::from_words([lo, hi])`, `f(&Uint<2>, ..)`: the callee's const generic is the literal length of the argument
+            parts[0] = '%d%%nat' % klit; rty = subst_len(rty, klit)
+        elif key in FREE_GENERIC and not self.cg:
+            raise TErr('call of the generic function %s: the const generic cannot be inferred' % key)
         if tv is not None: rty = subst_T(rty, tv)
         return '(%s %s)' % (cname, ' '.join(parts)), rty
     # ---- statements
@@ -943,8 +1134,10 @@ class Emitter:
                     else:
                         for q in p[1]: names(q)
                 names(s[1])
-            if s[0] in ('let', 'expr'):
-                for n in mutrefs(s[3] if s[0] == 'let' else s[1], []): hit(n)
+            if s[0] in ('let', 'expr', 'assign'):
+                ex = s[3] if s[0] in ('let', 'assign') else s[1]
+                for n in mutrefs(ex, []): hit(n)
+                for n in self.borrowed(ex, []): hit(n)
             if s[0] in ('assign', 'iassign'): hit(s[1])
             if s[0] == 'tassign':
                 for pl in s[1]:
@@ -1002,6 +1195,27 @@ class Emitter:
             # `while i <= E { ..; i += 1 }` : max(0, E + 1 - i) iterations (E below the maximum of the type: hypothesis of the theorems)
             return iv, '(Z.to_nat (%s + 1 - v_%s))' % (bc, iv)
         return iv, '(Z.to_nat (%s - v_%s))' % (bc, iv)
+    def counted2(self, c, b, env):
+        """`while i < E && j < F { ..; i += 1; j += 1; }` (the two increments last, in either order; i, j not assigned elsewhere
+        in the body; E, F not changed by it) -> ([i, j], coq iteration count) or None"""
+        if not (c[0] == 'bin' and c[1] == '&&' and len(b) >= 2): return None
+        l, r = c[2], c[3]
+        for x in (l, r):
+            if not (x[0] == 'bin' and x[1] == '<' and x[2][0] == 'var'): return None
+        iv, jv = l[2][1], r[2][1]
+        incs = {('assign', iv, '+', ('num', 1, None)), ('assign', jv, '+', ('num', 1, None))}
+        if iv == jv or set(b[-2:]) != incs or iv not in env or jv not in env: return None
+        asg = self.assigned(b[:-2], [])
+        if iv in asg or jv in asg: return None
+        if any(v in asg + [iv, jv] for v in fv(l[3], set()) | fv(r[3], set())): return None
+        parts = []
+        for v, bound in ((iv, l[3]), (jv, r[3])):
+            bc, bt = self.emit(bound, env, env[v])
+            t = env[v] or bt or 'u64'
+            if bt is None: bc, bt = self.emit(bound, env, t)
+            self.unify(bt, t, 'loop bound'); env[v] = t
+            parts.append('(%s - v_%s)' % (bc, v))
+        return [iv, jv], '(Z.to_nat (Z.min %s %s))' % (parts[0], parts[1])
     def stmts(self, ss, env, rty, tail, top=False):
         """-> coq text; `tail` is the text that closes a non-returning block (the state tuple of a loop body / if branch);
         `top`: the block is the function body (a `panic!` guard may only stand there)"""
@@ -1022,6 +1236,27 @@ class Emitter:
                     env[name] = None; self.uninit[name] = uid
                     out += 'let v_%s := \x00U%d\x00 in\n  ' % (name, uid)
                 self.const0[name] = False
+            elif s[0] == 'let' and s[3] is not None and s[3][0] == 'if' and s[1][0] == 'id' and s[3][3] and \
+                    (mutrefs(s[3], []) or self.borrowed(s[3], [])):
+                # `let mut c = if q { ..; f(z, ..) } else { ..; e };` where a branch calls a function with `&mut` parameters:
+                # read as `let mut c; if q { ..; c = f(z, ..); } else { ..; c = e; }` (the same program in Rust)
+                def to_assign(blk):
+                    if not blk or blk[-1][0] != 'ret' or blk[-1][1][0] == 'if': raise TErr('branch of a `let .. = if` without a plain tail expression')
+                    return blk[:-1] + [('assign', s[1][1], None, blk[-1][1])]
+                ss = ss[:i] + [('let', s[1], s[2], None), ('if', s[3][1], to_assign(s[3][2]), to_assign(s[3][3]))] + ss[i + 1:]
+                continue
+            elif s[0] == 'assign' and s[2] is None and self.is_mut_call(s[3]):
+                # `c = f(.., &mut x, ..);` : c is assigned the value, x is rebound to its final contents
+                name = s[1]
+                if name not in env: raise TErr('assignment to unknown %s' % name)
+                c, rt, names = self.mut_call(s[3], env)
+                if rt is None: raise TErr('assignment of a unit call')
+                if name in names: raise TErr('a borrowed variable assigned by the same call')
+                env[name] = self.unify(env[name], rt, 'assignment')
+                if name in self.uninit: self.uninit_t[self.uninit.pop(name)] = env[name]
+                self.const0[name] = False
+                for n in names: self.const0[n] = False
+                out += "let '(v_%s, %s) := %s in\n  " % (name, self.tup(names), c)
             elif s[0] in ('let', 'expr') and self.is_mut_call(s[3] if s[0] == 'let' else s[1]):
                 # `let pat = f(.., &mut x, ..);` / `f(.., &mut x, ..);` : x is rebound to its final contents
                 c, rt, names = self.mut_call(s[3] if s[0] == 'let' else s[1], env)
@@ -1129,6 +1364,18 @@ class Emitter:
                     for v in env:
                         if env[v] is None: env[v] = env2.get(v)      # an untyped literal first used (read) in the body
                     out += "let '(%s) := Nat.iter %s (fun st => let '(%s) := st in\n  %s) (%s) in\n  " % (tup, count, tup, body, tup)
+                elif self.counted2(c, b, env):
+                    # `while i < E && j < F { ..; i += 1; j += 1; }` : min(max(0, E - i), max(0, F - j)) iterations
+                    ivs, count = self.counted2(c, b, env)
+                    vs = ivs + [v for v in self.assigned(b[:-2], []) if v in env and v not in ivs]
+                    tup = self.tup(vs)
+                    env2 = dict(env)
+                    body = self.stmts(b, env2, None, '(%s)' % tup)
+                    for v in vs:
+                        env[v] = env2[v]; self.const0[v] = False
+                    for v in env:
+                        if env[v] is None: env[v] = env2.get(v)
+                    out += "let '(%s) := Nat.iter %s (fun st => let '(%s) := st in\n  %s) (%s) in\n  " % (tup, count, tup, body, tup)
                 elif c[0] == 'bin' and c[1] == '>' and c[2][0] == 'var' and c[3] == ('num', 0, None) and b and \
                         b[0] == ('assign', c[2][1], '-', ('num', 1, None)) and c[2][1] not in self.assigned(b[1:], []):
                     iv = c[2][1]
@@ -1174,12 +1421,18 @@ def impl_selfty(impl):
     if impl is None or impl in SELFTY: return SELFTY.get(impl)
     return parse_type(impl, None)
 
-def translate(src, name, cname, impl, sigs, trait=None):
+def translate(src, name, cname, impl, sigs, trait=None, extern=False):
     """-> parameters, declared return type, body text, type of Self, names of the `&mut` parameters"""
     selfty = impl_selfty(impl)
     params, ret, body, generics = find_fn(src, name, impl, trait)
     cg = None
-    if generics:
+    del EXTRA_CG[:]
+    if generics and extern and impl:
+        # an extern method with its own const generics: only its signature is read, at the instance where they equal LIMBS
+        ms = re.fullmatch(r'<\s*((?:const\s+\w+\s*:\s*usize\s*,?\s*)+)>', generics)
+        if not ms: raise TErr('unsupported generic parameters %s' % generics)
+        EXTRA_CG.extend(re.findall(r'const\s+(\w+)', ms.group(1)))
+    elif generics:
         m = re.fullmatch(r'<\s*const\s+(\w+)\s*:\s*usize\s*>', generics)
         if not m or impl: raise TErr('unsupported generic parameters %s' % generics)
         cg = m.group(1)
@@ -1201,6 +1454,7 @@ def translate(src, name, cname, impl, sigs, trait=None):
             muts.append(m.group(1))
         ps.append((m.group(1), ty))
     rty = parse_type(ret, selfty) if ret else ('tuple', [])
+    del EXTRA_CG[:]
     return ps, rty, body, selfty, muts, cg
 
 def find_const(src, name, impl):
@@ -1227,8 +1481,30 @@ def gen_group(repo, group, sigs):
     """group: {'file': out, 'fns': [ {src, name | const, impl, coq} ... ]} -> coq text, report; `sigs` accumulates over the groups"""
     bodies = []; report = []
     parsed = []
+    externs = []
+    CUR_GROUP[0] = group['file']
     for f in group['fns']:
         src = open(os.path.join(repo, f['src'])).read()
+        if f.get('extern'):
+            # an EXTERN function: outside the subset; only its declared signature is read from the source. It becomes a Section
+            # Variable of the generated file: every definition of the group that (transitively) calls it takes it as its first
+            # argument, and the theorems about those definitions quantify over it (with the hypotheses they need)
+            key = (f['impl'] + '::' + f['name']) if f.get('impl') else f['name']
+            try:
+                CG[0] = None
+                ps, rty, body, selfty, muts, cg = translate(src, f['name'], f['coq'], f.get('impl'), sigs, f.get('trait'), extern=True)
+                if muts or cg: raise TErr('extern function with `&mut` parameters / its own const generic')
+                sigs[key] = (f['coq'], [t for _, t in ps], rty)
+                EXT_USERS[key] = group['file']
+                tys = (['nat'] if is_generic(f.get('impl')) else []) + [coq_type(t) for _, t in ps] + [coq_type(rty)]
+                externs.append('(* %s :: %s  EXTERN: not translated, a parameter of the definitions below that call it *)\nVariable %s : %s.\n' % (f['src'], key, f['coq'], ' -> '.join(tys)))
+                report.append((key, 'ok (extern: signature only)'))
+            except TErr as e:
+                report.append((key, 'FAILED: ' + str(e)))
+                externs.append('(* %s :: %s  EXTERN signature NOT TRANSLATED: %s *)\nVariable %s : unit.\n' % (f['src'], key, str(e).replace('*)', '* )'), f['coq']))
+            finally:
+                CG[0] = None
+            continue
         if 'const' in f:
             key = f['impl'] + '::' + f['const']
             try:
@@ -1266,6 +1542,7 @@ def gen_group(repo, group, sigs):
             try:
                 em = Emitter(sigs, selfty, f.get('impl'), rty, cg, MUTS.get(key) if key in MUTRET else None)
                 env = {n: t for n, t in ps if n != 'self'}
+                em.mutparams = tuple(MUTS.get(key, ()))
                 toks = lex(body)
                 ss = P(toks, cgname()).block()
                 if key in MUTRET:
@@ -1279,6 +1556,7 @@ def gen_group(repo, group, sigs):
                 for uid in range(em.uid):
                     if uid not in em.uninit_t: raise TErr('`let` without a value: the variable is never assigned a typed value')
                     code = code.replace('\x00U%d\x00' % uid, dummy(em.uninit_t[uid]))
+                if em.uses_extern: EXT_USERS[key] = group['file']
                 args = ' '.join('(v_%s : %s)' % (n, coq_type(t)) for n, t in ps)
                 if is_generic(f.get('impl')):
                     args = '(LIMBS : nat) ' + args
@@ -1302,12 +1580,15 @@ def gen_group(repo, group, sigs):
     CG[0] = None
     head = '(** GENERATED by tools/rs2v.py from %s -- do not edit; regenerated on every ./check run. *)\n' % ', '.join(sorted(set(f['src'] for f in group['fns'])))
     head += 'From CB Require Import Model.SrcPrelude%s.\nOpen Scope Z_scope.\n\n' % ''.join(' Src.' + r for r in group.get('requires', []))
+    if externs:
+        return head + 'Section Extern.\n' + '\n'.join(externs) + '\n' + '\n'.join(bodies) + '\nEnd Extern.\n', report
     return head + '\n'.join(bodies), report
 
 GROUPS = json.load(open(os.path.join(os.path.dirname(os.path.abspath(__file__)), 'rs2v_targets.json')))
 
 def main():
     repo = sys.argv[1] if len(sys.argv) > 1 else '/repo'
+    REPO[0] = repo
     outdir = sys.argv[2] if len(sys.argv) > 2 else os.path.join(os.path.dirname(os.path.dirname(os.path.abspath(__file__))), 'coq', 'Src')
     os.makedirs(outdir, exist_ok=True)
     allrep = {}; sigs = {}
@@ -1318,7 +1599,7 @@ def main():
             open(p, 'w').write(text)
         allrep[g['file']] = rep
     json.dump(allrep, open(os.path.join(outdir, 'rs2v_report.json'), 'w'), indent=1)
-    bad = [(g, k, v) for g, r in allrep.items() for k, v in r if v != 'ok']
+    bad = [(g, k, v) for g, r in allrep.items() for k, v in r if not v.startswith('ok')]
     for g, k, v in bad:
         print('rs2v: %s %s %s' % (g, k, v))
     print('rs2v: %d functions translated, %d failed' % (sum(len(r) for r in allrep.values()) - len(bad), len(bad)))
